@@ -10,7 +10,7 @@ out=${MT_BUILD:-$VERIF/build}/$variant
 case $variant in
   v0|ld|dl) cc=gcc; flags="-O0 -g -DMYTH_VERIF" ;;
   v2) cc=gcc; flags="-O2 -g -DMYTH_VERIF" ;;
-  va) cc=clang; flags="-O1 -g -fsanitize=address,undefined -fno-sanitize=signed-integer-overflow,alignment -fno-omit-frame-pointer -DMYTH_VERIF -Dreal_pthread_attr_getstack=myth_real_pthread_attr_getstack" ;;
+  va) cc=clang; flags="-O1 -g -fsanitize=address,undefined -fno-sanitize=signed-integer-overflow,alignment,bounds -fno-omit-frame-pointer -DMYTH_VERIF -Dreal_pthread_attr_getstack=myth_real_pthread_attr_getstack" ;;
   c0) cc=clang; flags="-O0 -g -DMYTH_VERIF" ;;
   c2) cc=clang; flags="-O2 -g -DMYTH_VERIF" ;;
   n0) cc=gcc; flags="-O0 -g" ;;
@@ -22,7 +22,7 @@ objs=""
 pids=""
 mkdir -p $out/h
 for s in $srcs; do
-  $cc -c $flags -D_GNU_SOURCE -DHAVE_CONFIG_H -I$REPO/include -I$REPO/src -I$VERIF/harness -DMYTH_WRAP=MYTH_WRAP_VANILLA -w \
+  $cc -c $flags -D_GNU_SOURCE -DHAVE_CONFIG_H -I$REPO/include -I$REPO/src -I$REPO/src/profiler -I$VERIF/harness -DMYTH_WRAP=MYTH_WRAP_VANILLA -w \
      $VERIF/harness/$s -o $out/h/${s%.c}.o &
   pids="$pids $!"
   objs="$objs $out/h/${s%.c}.o"
@@ -37,5 +37,5 @@ done
 if ls $VERIF/harness/*.S >/dev/null 2>&1; then
   for s in $VERIF/harness/*.S; do b=$(basename $s .S); $cc -c $s -o $out/h/$b.o; objs="$objs $out/h/$b.o"; done
 fi
-$cxx $flags -o $out/runner $objs $out/libmyth.a -lpthread -ldl -lrt
+$cxx $flags -o $out/runner $objs $out/libmyth.a $out/libdr.a -lpthread -ldl -lrt -lm
 echo "$hs" > $out/.runner_hash
